@@ -412,6 +412,39 @@ static int run_fans(uint64_t seed, long n) {
   return 0;
 }
 
+// tables: clouds whose attribute residuals form a large alphabet with ONE symbol holding an exact power-of-two share (1/2 .. 1/32) of all values: the
+// normalised probability of that symbol lands exactly on the boundaries of the entropy coder's table serialisation (2^6, 2^14) at some precision,
+// whichever speed (= table precision) is used.  zeros of every 16 points repeat their predecessor, the other steps are spread evenly over W sizes.
+static int run_tables(uint64_t seed) {
+  vrt::Rng r(seed);
+  for (int share_log = 1; share_log <= 5; ++share_log)
+    for (int W : {128, 512}) {
+      const int total = 8192, nzero = total >> share_log, nstep = total - nzero;
+      std::vector<int32_t> seq;
+      int32_t x = 0;
+      // interleave: the k-th value repeats its predecessor when (k * nzero) / total advances, i.e. evenly spread holds (the first value counts as a hold)
+      int holds = 0, steps = 0;
+      for (int k = 0; k < total; ++k) {
+        const bool hold = (long)(k + 1) * nzero / total > (long)k * nzero / total;
+        if (!hold) { x += (steps % W) + 1; ++steps; } else ++holds;
+        seq.push_back(x);
+      }
+      (void)nstep;
+      Geom g; g.is_mesh = false; g.pc.reset(new PointCloud()); g.pc->set_num_points(total); g.shape = "tables";
+      AttDesc p{GeometryAttribute::POSITION, DT_INT32, 3, false, true, total};
+      const int pid = add_attribute(g.pc.get(), p, total);
+      AttDesc a{GeometryAttribute::GENERIC, DT_INT32, 1, false, true, total};
+      const int aid = add_attribute(g.pc.get(), a, total);
+      for (int i = 0; i < total; ++i) { const int32_t q[3] = {i % 37, (i / 37) % 41, i % 5}; g.pc->attribute(pid)->SetAttributeValue(AttributeValueIndex(i), q); g.pc->attribute(aid)->SetAttributeValue(AttributeValueIndex(i), &seq[i]); }
+      for (int speed = 0; speed <= 10; ++speed) {
+        Opt o; o.method = 0; o.es = o.ds = speed; o.expert = r.coin(); o.qbits.assign(2, 0);
+        run_case(g, o, true, 120);
+      }
+    }
+  fprintf(stderr, "STATS cases=%lld emitted=%lld encfail=%lld\n", n_cases, n_emit, n_enc_fail);
+  return 0;
+}
+
 // sizes: point / face counts at the boundaries where the sequential coders switch index widths (2^8, 2^16) and nearby
 static int run_sizes(uint64_t seed) {
   vrt::Rng r(seed);
@@ -466,6 +499,7 @@ int main(int argc, char **argv) {
   if (argc >= 4 && !strcmp(argv[1], "random")) return run_random(strtoull(argv[2], 0, 10), atol(argv[3]), nodedup, intnormals, big);
   if (argc >= 4 && !strcmp(argv[1], "fans")) return run_fans(strtoull(argv[2], 0, 10), atol(argv[3]));
   if (argc >= 3 && !strcmp(argv[1], "sizes")) return run_sizes(strtoull(argv[2], 0, 10));
+  if (argc >= 3 && !strcmp(argv[1], "tables")) return run_tables(strtoull(argv[2], 0, 10));
   if (argc >= 5 && !strcmp(argv[1], "small")) return run_small(atoi(argv[2]), strtoull(argv[3], 0, 10), strtoull(argv[4], 0, 10));
   fprintf(stderr, "usage: drv_rt random <seed> <n> [nodedup] [intnormals] [big] | small <maxfaces> <seed> <stride>\n");
   return 2;
